@@ -5,7 +5,7 @@ from concurrent.futures import ThreadPoolExecutor
 TRUSTED_BASE = [
     'Coq 8.16.1 kernel (coqc, full .vo builds; vm_compute used for finite table checks; no native_compute)',
     'no axioms: Print Assumptions of every Props theorem is "Closed under the global context" (see coverage.assumptions)',
-    'translator /verif/translator (go/ast -> coq/gen/Tables.v (symbolic evaluation of the class predicates, or the exhaustive sweep of the compiled ones), Consts.v, Upper.v, validated by the exhaustive class sweep; loop-free Go functions statement by statement -> coq/gen/Funcs.v, GemChars.v, GemLines.v, GemCommit.v, GemEdit.v, GemAlign.v, GemOpts.v (Go int read as Z; the operations of gem.String, Editor, Options, *parentRef and strings.Builder mapped onto the model by the table at the head of translator/gemfunc.go; each proved equal to the model's function in coq/Inst))',
+    'translator /verif/translator (go/ast -> coq/gen/Tables.v (symbolic evaluation of the class predicates, or the exhaustive sweep of the compiled ones), Consts.v, Upper.v, validated by the exhaustive class sweep; loop-free Go functions statement by statement -> coq/gen/Funcs.v, GemChars.v, GemLines.v, GemCommit.v, GemEdit.v, GemAlign.v, GemOpts.v (Go int read as Z; the operations of gem.String, Editor, Options, *parentRef and strings.Builder mapped onto the model by the table at the head of translator/gemfunc.go; each proved equal to the function of the model in coq/Inst))',
     'extraction: ExtrOcamlBasic only (bool, option, unit, list, prod, sumbool to OCaml types); Z/positive/nat as Coq inductives; no Extract Constant',
     'OCaml 4.13.1 and the hand-written driver (ocaml/conv.ml, verdicts.ml, driver.ml) for the correspondence only',
     'Go harness /verif/harness built with -tags verif against /repo; hooks internal/gem/verif_export.go, verif_export.go, verif_export_table.go',
